@@ -3,11 +3,12 @@ EXTENDS Human, Json
 CONSTANTS N, Ops, EmitMod, TyDepth
 VARIABLES stage, dag, user, ty
 vars == <<stage, dag, user, ty>>
-Ops_human == {"iden", "unit", "witness", "word0", "injl", "injr", "take", "drop", "comp", "case", "pair", "assertl", "jetL", "fail"}
+Ops_human == {"iden", "unit", "witness", "word0", "injl", "injr", "take", "drop", "comp", "case", "pair", "assertl", "assertr", "jetL", "fail"}
 Ops_disc == {"iden", "unit", "witness", "take", "drop", "comp", "pair", "disc1"}
 Payload(nd, k) == CASE nd[1] = "word0" -> <<"word0", 0, 0, k % 2>>
                     [] nd[1] = "fail" -> <<"fail", 0, 0, k % 2>>
                     [] nd[1] = "assertl" -> <<"assertl", nd[2], 0, 1>>
+                    [] nd[1] = "assertr" -> <<"assertr", nd[2], 0, 2>>
                     [] nd[1] = "disc1" -> <<"disc1", nd[2], 0, "h" \o ToString(k)>>
                     [] nd[1] = "jetL" -> <<"jetL", 0, 0, "low_1">>
                     [] OTHER -> nd
@@ -59,6 +60,8 @@ TypeInv == stage = "type" => LET t == Hz(ty) IN
 ProgramInv == Done => LET f == ProgramForest(dag, Ar)  ls == Render(f.objs, f.ar, f.names) IN
                       /\ NamesDistinct(f.names)
                       /\ RoundTrip(f.objs, f.ar, ls, TextTok(f.objs, f.ar, ls, TRUE), TRUE, 31, TRUE)
+\* every enumerated type goes to the crate as the type of a witness in a real program
+EmitType == stage = "type" => PrintT(<<"TYPE", ToJson([ty |-> Hz(ty), toks |-> TyTok(Hz(ty), TRUE)])>>)
 Hm == (Len(dag) * 5 + Len(Items(dag, Ar))) % EmitMod
 Emit == (Done /\ Hm = 0) =>
           LET nm == AssignNames(dag, user, TRUE)  ar == Ar  ls == Render(dag, ar, nm) IN
